@@ -158,12 +158,16 @@ class Recorder:
             info = {}
             mps.canonicalize_(rng.randrange(mps.L), info=info)
         L = len(geo.sites)
+        forced = rng.choice([1, 2]) if ncalls >= 3 else 1
         for step in range(1, ncalls + 1):
             n = rng.choice([1, 2, 2, 3]) if L >= 3 else rng.choice([1, 2])
             where = tuple(rng.sample(geo.sites, n))
             nrm = rng.random() < 0.5
             route = rng.choice(["local_expectation_canonical", "compute_local_expectation_canonical", "compute_local_expectation_canonical",
                                 "partial_trace_to_dense_canonical"])
+            force_copy = step == forced       # one early call works on a copy: the caller's state and record must stay in step
+            if force_copy:
+                route = "compute_local_expectation_canonical"
             ds = [geo.dims[geo.pos[s]] for s in where]
             if route == "partial_trace_to_dense_canonical":
                 rec = self._base("rdm", route, where, False, nrm)
@@ -184,7 +188,7 @@ class Recorder:
                         v = mps.local_expectation_canonical(np.array(G), where, normalized=nrm, info=info)
                         rec["opts"] = "history(start=%s) step %d, shared info" % (start, step)
                     else:
-                        inplace = rng.random() < 0.5
+                        inplace = (rng.random() < 0.5) and not force_copy
                         via = rng.choice(["compute_local_expectation(method=canonical)", "compute_local_expectation_canonical"])
                         ra = rng.random() < 0.5
                         rec["opts"] = "history(start=%s) step %d, shared info, %s, inplace=%s, return_all=%s" % (start, step, via, inplace, ra)
@@ -574,13 +578,17 @@ def run(ctx):
     # ---- 4c. histories: ONE MPS object and ONE `info` dict threaded through consecutive calls of the 1D
     #          canonical routes at different site tuples (inplace False / True, starting from a non-canonical
     #          and from a canonicalised state); every call is judged
-    nhist = 6 if quick else 40
-    mps_geos = [g for c, t, g in sweep_done if c == "mps"]
+    nhist = 12 if quick else 60
+    mps_geos = [g for c, t, g in sweep_done if c == "mps" and len(g.sites) >= 3]
+    while len(mps_geos) < (3 if quick else 10):
+        g = U.build_geo("mps", rng, variant=len(mps_geos))
+        if len(g.sites) >= 3:
+            mps_geos.append(g)
     for h in range(nhist):
-        geo = mps_geos[h % len(mps_geos)] if h % 3 else U.build_geo("mps", rng, variant=h)
+        geo = mps_geos[h % len(mps_geos)]
         rec = Recorder(geo, len(recorders), stats)
         recorders.append(rec)
-        rec.history(rng, 2 + h % 3 + (1 if not quick else 0), start=("raw", "canonical", "calc")[h % 3])
+        rec.history(rng, 3 + h % 2, start=("raw", "canonical", "calc", "raw")[h % 4])
         nasked += 1
     lap("exponent+histories")
     # ---- 5. TLC judges
